@@ -56,6 +56,12 @@ C13_CleanEnd(o) ==
 C13_NoLeak(o) == \A n \in Idx(o) : o[n].k = "end" => o[n].n = 0
 C13_NoCrash(o) == \A n \in Idx(o) : o[n].k # "panic"
 
+(* C06 in the established phase: after its terminal session envelope the terminating side puts *)
+(* nothing but session envelopes on the wire (wire(g, n = data envelopes after it)), and a      *)
+(* side for which the session is over refuses to send (latesend(g, kind, res))                  *)
+C06_QuietAfterEnd(o) == \A n \in Idx(o) : o[n].k = "wire" => o[n].n = 0
+C06_NoSendAfterEnd(o) == \A n \in Idx(o) : o[n].k = "latesend" => o[n].res = "err"
+
 (* C17: every dispatch carries the identity of the session whose connection delivered the  *)
 (* envelope, and a reply sent through the handler's sender lands on that session's client  *)
 (*   dispatch(g = client that sent it, res = "own" | "foreign" context)                    *)
